@@ -88,6 +88,8 @@ class StreamResponse(
     _must_be_empty_body: bool | None = None
     _body_length = 0
     _send_headers_immediately = True
+    # The body is delimited by closing the connection, whatever keep_alive says.
+    _close_delimited = False
 
     def __init__(
         self,
@@ -409,7 +411,10 @@ class StreamResponse(
                         writer.enable_chunking()
                         headers[hdrs.TRANSFER_ENCODING] = "chunked"
                 elif not self._must_be_empty_body:
+                    # HTTP/1.0 without a declared length: the end of the body
+                    # is the end of the connection.
                     keep_alive = False
+                    self._close_delimited = True
 
         # HTTP 1.1: https://tools.ietf.org/html/rfc7230#section-3.3.2
         # HTTP 1.0: https://tools.ietf.org/html/rfc1945#section-10.4
